@@ -57,6 +57,26 @@ def match_limit(limits, oid, fail):
     return None
 
 
+ALL_CLASSES = ("safety", "functional", "proof-internal")
+
+
+def _rules(spec, u):
+    """spec["units"][u] is (selection, classes) or a list of such pairs (first matching rule wins)."""
+    v = spec["units"][u]
+    return v if isinstance(v, list) else [v]
+
+
+def _rule_for(spec, u, qual):
+    for sel, classes in _rules(spec, u):
+        if sel is None or qual in sel:
+            return sel, classes
+    return None
+
+
+def _selected(spec, u, qual):
+    return _rule_for(spec, u, qual) is not None
+
+
 def check_property(prop, tier):
     t0 = time.time()
     seed = int(os.environ.get("VERIF_SEED", "0") or 0)
@@ -115,10 +135,13 @@ def check_property(prop, tier):
 
     for u in units:
         r = results[u]
-        sel, classes = spec["units"][u]
         for oid, ob in r.obligations.items():
-            if ob["kind"] == "fn" and sel is not None and ob["qual"] not in sel:
-                continue
+            classes = ALL_CLASSES
+            if ob["kind"] == "fn":
+                rule = _rule_for(spec, u, ob["qual"])
+                if rule is None:
+                    continue
+                classes = rule[1]
             if ob["kind"] == "lemma":
                 # lemmas carry no repository code; a failing lemma is an infrastructure problem
                 if ob["status"] != "ok":
@@ -181,9 +204,8 @@ def check_property(prop, tier):
     for oid in sorted(baseline):
         u = oid.split("::", 1)[0]
         if u in spec["units"] and u in units and "::lemma::" not in oid:
-            sel = spec["units"][u][0]
             q = oid.split("::", 1)[1]
-            if sel is not None and q not in sel:
+            if not _selected(spec, u, q):
                 continue
             if oid not in obligations and results[u].gen is not None:
                 undecided.append("%s: baseline obligation %s no longer generated" % (u, oid))
@@ -242,8 +264,7 @@ def check_property(prop, tier):
         # that function - and every unit that imports its contract - undecided: same stand-in
         lost = {u: [ob["qual"] for ob in results[u].obligations.values() if ob.get("kind") == "fn" and ob.get("status") == "undecided"] for u in units if u in fam}
         for u, qs in lost.items():
-            sel = spec["units"][u][0]
-            qs = [q for q in qs if sel is None or q in sel]
+            qs = [q for q in qs if _selected(spec, u, q)]
             if qs and u not in broken:
                 broken.append(u)
                 results[u].infra.append("lost anchor in " + ", ".join(qs))
@@ -255,7 +276,7 @@ def check_property(prop, tier):
                 rep = cesearch.grid(names, seed, cap=1500)
                 dis = rep["disagreements"]
                 if prop == "C15":
-                    dis = [d for d in dis if "panic" in d["observed"] or "abort" in d["observed"]]
+                    dis = [d for d in dis if "panic" in d["observed"] or "abort" in d["observed"] or "hang" in d["observed"]]
                 standin = {"bounded": True, "ran_because_undecided": broken, "builtins": names, "calls_on_real_code": rep["calls"], "failing_inputs": len(dis)}
                 seen_b = set()
                 for d in dis:
@@ -264,7 +285,7 @@ def check_property(prop, tier):
                     seen_b.add(d["builtin"])
                     rp = os.path.join(REPLAYS, "%s_standin_%s.json" % (prop, d["builtin"]))
                     with open(rp, "w") as fh:
-                        json.dump({"property": prop, "obligation": "bounded_standin::" + d["builtin"], "class": "safety" if "panic" in d["observed"] else "functional",
+                        json.dump({"property": prop, "obligation": "bounded_standin::" + d["builtin"], "class": "safety" if ("panic" in d["observed"] or "abort" in d["observed"] or "hang" in d["observed"]) else "functional",
                                    "verifier_message": "the unit could not be decided deductively on this tree (%s); the bounded boundary differential on the real code found a failing input" % "; ".join(x for u in broken for x in results[u].infra)[:300],
                                    "failing_expression": None, "counterexample": {"found": True, "input": d}}, fh, indent=1)
                     lines.append("VIOLATION property=%s replay=%s" % (prop, rp))
@@ -275,7 +296,7 @@ def check_property(prop, tier):
     # misbehaves is a violation with a replayable input; none found leaves the property undecided (exit 2).
     if prop in ("C06", "C13", "C16") and not violations:
         und_units = [u for u in units if any(("does not compile" in x or x.startswith("extract")) for x in results[u].infra)
-                     or any(ob.get("kind") == "fn" and ob.get("status") == "undecided" and (spec["units"][u][0] is None or ob.get("qual") in spec["units"][u][0]) for ob in results[u].obligations.values())]
+                     or any(ob.get("kind") == "fn" and ob.get("status") == "undecided" and _selected(spec, u, ob.get("qual")) for ob in results[u].obligations.values())]
         if und_units:
             try:
                 from . import progsearch
@@ -307,6 +328,20 @@ def check_property(prop, tier):
             ce = None
         except Exception as e:  # the search only decorates a violation; it never decides
             ce = {"found": False, "note": "counterexample search crashed: %r" % (e,)}
+        if not (ce and ce.get("found")) and oid.split("::", 1)[0] in ("heap", "handlers", "coldpath", "equality"):
+            # a violated VM obligation: look for a failing program in the bounded corpus on the real quiv binary
+            try:
+                from . import progsearch
+
+                pr = progsearch.search_all()
+                if pr["failures"]:
+                    f0 = pr["failures"][0]
+                    ce = {"found": True, "note": "a program of the bounded corpus misbehaves on quiv built from this tree (%d of %d programs fail); it shows that the tree is broken, not necessarily through this obligation" % (len(pr["failures"]), pr["runs"]),
+                          "input": {"builtin": "program:" + f0["program"], "args": [f0["source"]], "rope_shape": "-", "expected": ["see why"], "observed": {"why": f0["why"]}, "call": None}}
+                else:
+                    ce = {"found": False, "note": "no program of the bounded corpus (%d programs on the real quiv binary) misbehaves" % pr["runs"]}
+            except Exception as e:
+                ce = {"found": False, "note": "program corpus could not run: %r" % (e,)}
         rep = {
             "property": prop,
             "obligation": oid,
